@@ -41,6 +41,15 @@ Theorem C14_isNegationOf_sound : forall g rho u vals,
 Proof. exact negation_sound. Qed.
 Print Assumptions C14_isNegationOf_sound.
 
+(* two analysed conditions that are EQUAL AS std::map KEYS (defaulted Conjunction::operator== / <=>,
+   used by the cache of rebuilt enable signals in Retiming.cpp) and defined have equal outputs *)
+Theorem C14_same_key_sound : forall g rho u vals,
+  wf g = true -> consistent g rho u vals -> forall ra rb ca cb,
+  parse g ra = Some ca -> parse g rb = Some cb -> conj_same ca cb = true -> c_undef ca = false ->
+  dval vals u ra = dval vals u rb.
+Proof. exact same_key_sound. Qed.
+Print Assumptions C14_same_key_sound.
+
 (* a's terms are a subset of b's: whenever b is true, a is true *)
 Theorem C14_isSubsetOf_sound : forall g rho u vals,
   wf g = true -> consistent g rho u vals -> forall ra rb ca cb,
